@@ -9,7 +9,7 @@ from deeprob.spn.learning.cnet_bayesian import learn_cnet_bd, learn_cnet_bic
 
 def gen_data(rs, k):
     nv = int(rs.randint(2, 9))
-    nr = int(rs.choice([4, 8, 15, 30, 60, 150]))
+    nr = int(rs.choice([4, 15, 60, 150, 400, 800]))
     fam = k % 5
     X = rs.randint(0, 2, size=(nr, nv))
     if fam == 1:
@@ -132,7 +132,7 @@ def one_case(ctx, k):
 
 
 def run(ctx):
-    n = 90 if ctx.tier == 'quick' else 1500
+    n = 150 if ctx.tier == 'quick' else 2000
     for k in range(n):
         one_case(ctx, k)
         if ctx.n_new() >= 3:
